@@ -583,6 +583,46 @@ func enumScenarios(cache string, level int) []scenario {
 	return out
 }
 
+// compileOrder: the order (indices into the tuple) in which the runtimes of an interleaved scenario compile.
+func compileOrder(mode string, n int) []int {
+	o := make([]int, n)
+	for i := range o {
+		switch {
+		case mode == "inter-rev":
+			o[i] = n - 1 - i
+		case mode == "inter" || mode == "seq":
+			o[i] = i
+		default:
+			o[i] = int(mode[len("inter-")+i] - '0')
+		}
+	}
+	return o
+}
+
+// subMode: the mode of the scenario that remains when runtime `drop` is removed (the induced order of compilation).
+func subMode(mode string, n, drop int) string {
+	if mode == "seq" || n <= 2 {
+		return "seq"
+	}
+	var rest []int
+	for _, j := range compileOrder(mode, n) {
+		if j == drop {
+			continue
+		}
+		if j > drop {
+			j--
+		}
+		rest = append(rest, j)
+	}
+	if mode != "seq" && len(rest) == 2 {
+		if rest[0] == 0 {
+			return "inter"
+		}
+		return "inter-rev"
+	}
+	return mode
+}
+
 // runScenario returns one run per tuple position.
 func (e *env) runScenario(p *program, engine string, sc scenario) []*rtRun {
 	e.tick()
@@ -611,14 +651,7 @@ func (e *env) runScenario(p *program, engine string, sc scenario) []*rtRun {
 		for i, l := range sc.Tuple {
 			runs[i] = newRT(letterSettings(engine, l), cache)
 		}
-		for i := range runs { // order of compilation
-			j := i
-			switch {
-			case sc.Mode == "inter-rev":
-				j = n - 1 - i
-			case sc.Mode != "inter":
-				j = int(sc.Mode[len("inter-")+i] - '0')
-			}
+		for _, j := range compileOrder(sc.Mode, n) {
 			runs[j].compile(p)
 		}
 		for _, r := range runs {
@@ -731,6 +764,7 @@ func (e *env) ordersCase(tier, engine string, p *program, cache string, only int
 			}
 			sub := f.sc
 			sub.Tuple = append(append([]string{}, f.sc.Tuple[:drop]...), f.sc.Tuple[drop+1:]...)
+			sub.Mode = subMode(f.sc.Mode, len(f.sc.Tuple), drop)
 			check(sub)
 		}
 		if !minimal {
